@@ -9,7 +9,7 @@ F_W = ["rich/text.py:Text.wrap", "rich/_wrap.py:divide_line", "rich/_wrap.py:wor
        "rich/containers.py:Lines.justify", "rich/text.py:Text.truncate", "rich/text.py:Text.rstrip_end", "rich/text.py:Text.expand_tabs",
        "rich/text.py:Text.split"]
 # all non-whitespace characters are distinct, so positions in the output can be matched back unambiguously
-WORDS = ["a", "bc", "defghij", "中文", "ḱ", "l中", "mnopqrstuvwx", "字"]
+WORDS = ["a", "bc", "defghij", "中文", "k\u0301", "l中", "mnopqrstuvwx", "字"]
 SEPS = [" ", "  ", "\n", "\t", " \n"]
 LEAD = ["", " ", "  "]
 JUSTIFY = [None, "left", "center", "right", "full"]
@@ -21,8 +21,8 @@ def _tags(text: Text):
     return [[sp.style for sp in text._spans if sp.start <= i < sp.end and sp.style] for i in range(len(text.plain))]
 
 
-TRIPLES = [("a", "defghij", "中文"), ("中文", "bc", "mnopqrstuvwx"), ("ḱ", "l中", "defghij"), ("mnopqrstuvwx", "a", "字"),
-           ("l中", "中文", "bc"), ("bc", "ḱ", "a")]
+TRIPLES = [("a", "defghij", "中文"), ("中文", "bc", "mnopqrstuvwx"), ("k\u0301", "l中", "defghij"), ("mnopqrstuvwx", "a", "字"),
+           ("l中", "中文", "bc"), ("bc", "k\u0301", "a")]
 SEP_PAIRS = [(" ", " "), ("  ", "\n"), ("\n", " "), ("\t", " "), (" \n", "  "), (" ", "\t"), ("\n", "\n"), ("  ", "  ")]
 SHAPES = [(0, 0), (0, 4), (1, 2), (2, 2)]      # (start, length) on a 4-step grid; (0,0) = no span
 
